@@ -390,6 +390,9 @@ def run_pf(toks, line) -> str:
             yielded.append(str(ident))
             if len(yielded) > len(events) + 3:
                 break
+    except Exception:
+        # the parser itself failed (e.g. it decoded a fragment and choked on it)
+        yielded.append(str(BAD_ID))
     finally:
         for k, v in saved.items():
             if v is None:
